@@ -269,6 +269,7 @@ REGISTRY["C13"] = {
     "tests": [
         {"name": "TestC13Unit", "checks": {"quick": 600, "thorough": 60000}, "shards": {"quick": 12, "thorough": 16}},
         {"name": "TestC13Process", "checks": {"quick": 150, "thorough": 5000}, "shards": {"quick": 4, "thorough": 16}},
+        {"name": "TestC13TwoInstances", "checks": {"quick": 100, "thorough": 3000}, "shards": {"quick": 2, "thorough": 8}},
     ],
 }
 
